@@ -118,6 +118,22 @@ def make_model(kind, m):
         mod = M()
         params = [('a', 'vec', None, as_, mod.a), ('e', 'vec', None, es, mod.e)]
         return mod, params, p, y, ps, None, {'rot_slices': []}
+    if kind == 'euclid+two-outputs':
+        e = torch.randn(2, dtype=DT, generator=gen)
+        es = m.symbolic(e, 'e')
+        p = torch.randn(1, 3, dtype=DT, generator=gen)
+        ps = m.symbolic(p, 'p')
+
+        class M(nn.Module):
+            def __init__(s):
+                super().__init__()
+                s.e = nn.Parameter(e)
+
+            def forward(s, inp):
+                return (s.e * 2.0 - inp[..., :2]), (s.e * s.e - inp[..., 1:])
+        mod = M()
+        params = [('e', 'vec', None, es, mod.e)]
+        return mod, params, p, None, ps, None, {'rot_slices': []}
     raise ValueError(kind)
 
 
